@@ -347,6 +347,34 @@ func Run(r *mc.Run) {
 	// the same entry points called at the same time on independent inputs: every schedule of small thread programs (instrumented build)
 	sched.Explore(r, "concurrent-calls", ConcurrentPrograms())
 
+	// a refused field leaves nothing behind: every malformed field of the statement's list, then a well-formed one
+	malformed := []string{"foo (>= 1", "foo (>= 1.0 ", "foo [amd64", "foo [amd64 ", "${x", "${shlibs:Depends", "a <x", "a <!x ", "a (?? 1)", "a b", "a [!x y]", "a (>= 1) (<< 2)", "a [x] [y]", "a (>= 1", "a:any (", "a | ${"}
+	r.Scenario("well-formed-after-malformed", map[string]interface{}{"malformed": malformed, "then": len(heldSet)}, len(malformed), func(i int, st *mc.Stats) bool {
+		for _, d := range heldSet {
+			for _, via := range []string{"parse", "control"} {
+				st.Evals++
+				st.Traces++
+				st.Nontrivial++
+				in := HeldIn{In{malformed[i], "", nil, via}, In{d.Render(), d.Canon(), nil, via}}
+				var d2 *dependency.Dependency
+				var e2 error
+				if p, msg := mc.Guard(func() { parseVia(via, in.First.Text); d2, e2 = parseVia(via, in.Second.Text) }); p {
+					st.Violate(mc.V("well-formed-after-malformed", "parse-returns", in, "no panic", msg))
+					continue
+				}
+				if e2 != nil {
+					st.Violate(mc.V("well-formed-after-malformed", "wellformed-accepted", in, in.Second.Canon, "after the malformed field: error: "+e2.Error()))
+				} else if got := gen.CanonDep(d2); got != in.Second.Canon {
+					st.Violate(mc.V("well-formed-after-malformed", "structure-exact", in, in.Second.Canon, "after the malformed field: "+got))
+					st.Class("changed")
+				} else {
+					st.Class("exact")
+				}
+			}
+		}
+		return true
+	})
+
 	// spacing deviations
 	k := r.Pick(1, 2)
 	small := gen.DepFields(reps, 2)
@@ -509,6 +537,20 @@ func Replay(scenario string, raw json.RawMessage) []*mc.Violation {
 		if mc.UnmarshalInput(raw, &in) == nil {
 			if v, _ := checkCorrupted(scenario, in); v != nil {
 				return []*mc.Violation{v}
+			}
+		}
+		return nil
+	}
+	if scenario == "well-formed-after-malformed" {
+		var in HeldIn
+		if mc.UnmarshalInput(raw, &in) == nil {
+			parseVia(in.First.Via, in.First.Text)
+			d2, e2 := parseVia(in.Second.Via, in.Second.Text)
+			if e2 != nil {
+				return []*mc.Violation{mc.V(scenario, "wellformed-accepted", in, in.Second.Canon, "after the malformed field: error: "+e2.Error())}
+			}
+			if got := gen.CanonDep(d2); got != in.Second.Canon {
+				return []*mc.Violation{mc.V(scenario, "structure-exact", in, in.Second.Canon, "after the malformed field: "+got)}
 			}
 		}
 		return nil
